@@ -49,7 +49,7 @@ R.contract(
     witnesses={"WKEY": ("rkey", "~Str"), "WIDX": ("rindex", "int")},
     native_ensures=NATIVE_MUT,
     modifies=["random.*"],
-    props=["C06", "C09"],
+    props=["C06", "C09", "C10"],
 )
 R.contract(
     "DynamicStructuredGrammaticalEvolutionRepresentation.mutate",
@@ -60,7 +60,7 @@ R.contract(
     witnesses={"WKEY": ("rkey", "~Type"), "WIDX": ("rindex", "int")},
     native_ensures=NATIVE_MUT,
     modifies=["random.*"],
-    props=["C06", "C09"],
+    props=["C06", "C09", "C10"],
 )
 
 
@@ -108,7 +108,7 @@ def xover(key, gkey, file, keysort):
         },
         locals={"c1": f"dict[{keysort},list[int]]", "c2": f"dict[{keysort},list[int]]"},
         modifies=["random.*"],
-        props=["C06", "C09"],
+        props=["C06", "C09", "C10"],
     )
 
 
